@@ -23,6 +23,15 @@ func init() {
 	gen.RegisterOp("c16", "results", func(c *gen.Ctx, raw json.RawMessage) any {
 		in := gen.Into[c16ResultsIn](raw)
 		out := cc.VerifC16Results(in.Steps)
+		// "late" (report() took 1.5 x TraceTimeout or more) is a wall-clock observation: on an
+		// overloaded machine (thorough tier: race detector, 16 scripts at a time, other checks
+		// running) a waiter released by its deadline may be scheduled seconds later. A wait that
+		// really outlives its context does so every time: the script is repeated, and only a
+		// report that is late three times in a row is reported as late.
+		for attempt := 0; attempt < 2 && out.Report == "late"; attempt++ {
+			c.E.Count("results:repeated-late-report")
+			out = cc.VerifC16Results(in.Steps)
+		}
 		c.E.Count("results:report-" + out.Report)
 		return out
 	})
